@@ -179,6 +179,24 @@ Stat(ev) == LET es == Envs(ev)
             IN  PrintT(<<"STAT", ev.id, Cardinality(es), nf,
                          Len(BoolAux(ev)), Len(ContAux(ev))>>)
 
+\* C10 (division kept): a division whose denominator is zero somewhere on the sample grid, or whose value
+\* depends on the variables, is diagnosed -- a model that contains one is never compiled, whatever surrounds
+\* the division (a zero factor, a deciding logic constant, a min / max operand another operand dominates,
+\* a logic comparison that holds for both truth values)
+RECURSIVE BadDens(_, _)
+KidsOf(e) == IF e.op \in {"num", "var"} THEN {}
+             ELSE IF "args" \in DOMAIN e THEN {e.args[i] : i \in 1..Len(e.args)}
+             ELSE IF "b" \in DOMAIN e THEN {e.a, e.b} ELSE {e.a}
+IsBadDen(d, ev) == LET vals == {Eval(d, env) : env \in Envs(ev)} IN
+                   Cardinality(vals) > 1 \/ \E v \in vals : ~IsDef(v) \/ RZero(v)
+BadDens(e, ev) == (IF e.op = "div" /\ IsBadDen(e.b, ev) THEN {e.b} ELSE {}) \cup UNION {BadDens(k, ev) : k \in KidsOf(e)}
+SrcBadDens(ev) == BadDens(ev.obj, ev) \cup UNION {BadDens(ev.cons[i].lhs, ev) \cup
+                     (IF ev.cons[i].assert THEN {} ELSE BadDens(ev.cons[i].rhs, ev)) : i \in 1..Len(ev.cons)}
+CheckDiv(ev) ==
+   IF ev.out = "ok" /\ "obj" \in DOMAIN ev /\ SrcBadDens(ev) # {}
+   THEN PrintT(<<"REJECT", "C10", ev.id, "a division by zero or by a non-constant was compiled away", ToJson(CHOOSE d \in SrcBadDens(ev) : TRUE)>>)
+   ELSE TRUE
+
 \* C10 (twins): two spellings of one model are accepted or rejected together
 TwinCheck(ev) ==
    IF (ev.outa = "ok") = (ev.outb = "ok") THEN PrintT(<<"TWIN", ev.id, ev.outa, ev.outb>>)
@@ -187,6 +205,7 @@ TwinCheck(ev) ==
 Check(ev) ==
    IF "twin" \in DOMAIN ev THEN TwinCheck(ev) ELSE
    /\ (Has("C08") => CheckWF(ev))
+   /\ (Has("DIV") => CheckDiv(ev))
    /\ IF ~Judgeable(ev) THEN PrintT(<<"SKIP", ev.id, ev.out>>)
       ELSE /\ (Has("C01") => Report("C01", ev, BadFeas(ev), "projection"))
            /\ (Has("C02") => Report("C02", ev, BadObj(ev), "objective"))
